@@ -10,6 +10,7 @@ import Rare.Proofs.AggLoopTrace
 import Rare.Proofs.C05Signal
 import Rare.Proofs.C05Logger
 import Rare.Proofs.C05Close
+import Rare.Proofs.C05CloseProg
 /-!
 # C05 — race-free, atomic renders, complete final render
 
@@ -301,6 +302,90 @@ theorem close_after_waitgroup_skeleton :
     (Gen.Skeleton.extractorNew.filter (· == "close:extractor.readChan")).length = 1 := by
   refine ⟨by decide, by decide, by decide, by decide, by decide, by decide, by decide, by decide, by decide, rfl,
     by decide, by decide, by decide⟩
+
+/-! ### The whole reader goroutine as a program of bookkeeping actions (`Model/C05CloseProg.lean`)
+
+A reader's program = its body (`incErrors` | `startFileReading`, then `send batch; incReadBytes` per batch) followed
+by the deferred exit block, and the exit block is READ OFF the regenerated skeleton (`C05Prog.exitOf`).  The status
+observables are a fold over the executed actions, faithful to `stopFileReading`.  Correspondence: op `closeord`
+(the real batchers under a forced schedule, observed on the spawner goroutine right before `close(s.c)`). -/
+
+/-- The deferred exit block of the reader goroutines in both batchers, as the source has it. -/
+theorem close_exit_block_from_source :
+    C05Prog.exitOf Gen.Skeleton.openFilesToChan = [.stop, .done] ∧
+    C05Prog.exitOf Gen.Skeleton.tailFilesToChan = [.stop, .done] := by
+  refine ⟨by decide, by decide⟩
+
+/-- … and the bodies: a failed open is `incErrors; return`, otherwise `startFileReading` and the sync loop, in which
+    every send on the batch channel is directly followed by its `incReadBytes` (both loops, both sends). -/
+theorem close_reader_body_skeleton :
+    ["}", "call:out.incErrors", "return", "defer:file.Close", "call:out.startFileReading", "call:out.syncReaderToBatcher", "}"]
+      <:+: Gen.Skeleton.openFilesToChan ∧
+    ["}", "call:out.incErrors", "return", "call:out.incErrors", "call:out.startFileReading",
+      "call:out.syncReaderToBatcherWithTimeFlush", "}"] <:+: Gen.Skeleton.tailFilesToChan ∧
+    Gen.Skeleton.syncReaderToBatcher.drop 3 =
+      ["for{", "call:readahead.Scan", "send:s.c", "call:s.incReadBytes", "}", "send:s.c", "call:s.incReadBytes"] ∧
+    Gen.Skeleton.syncReaderToBatcherWithTimeFlush = Gen.Skeleton.syncReaderToBatcher := by
+  refine ⟨by decide, by decide, by decide, by decide⟩
+
+/-- **Closed ⇒ every reader has executed ALL its bookkeeping**, whatever its body did (open error, drain error, read
+    errors, any number of batches), for any number of readers and every interleaving: with the exit block of the
+    source, once the batch channel is closed each reader's executed actions are its whole program. -/
+theorem close_all_bookkeeping_complete (skel : List String)
+    (hsk : skel = Gen.Skeleton.openFilesToChan ∨ skel = Gen.Skeleton.tailFilesToChan)
+    (bodies : List (List C05Prog.Act)) (hb : ∀ b ∈ bodies, C05Prog.Act.done ∉ b) {s : C05Prog.St}
+    (hr : C05Prog.Reach (C05Prog.init (bodies.map (· ++ C05Prog.exitOf skel))) s) (hc : s.closed = true) :
+    s.rs.map (·.exec) = bodies.map (· ++ [.stop, .done]) ∧ ∀ r ∈ s.rs, r.todo = [] := by
+  have he : C05Prog.exitOf skel = [.stop, .done] := by
+    rcases hsk with rfl | rfl
+    · exact close_exit_block_from_source.1
+    · exact close_exit_block_from_source.2
+  rw [he] at hr
+  refine C05Prog.closed_all_executed ?_ hr hc
+  intro p hp
+  obtain ⟨b, hbm, rfl⟩ := List.mem_map.mp hp
+  refine ⟨b ++ [.stop], by simp, ?_⟩
+  have := hb b hbm
+  simp [this]
+
+/-- **Closed ⇒ complete status, all of it**: for any set of sources (`none` = the open fails, `some bs` = read as
+    batches of `bs` bytes) once the batch channel is closed no file is listed as active, every opened source is
+    counted as read, every failed open as an error, and `readBytes` is the bytes of all batches – all of which
+    have been handed to the channel. -/
+theorem close_program_complete (skel : List String)
+    (hsk : skel = Gen.Skeleton.openFilesToChan ∨ skel = Gen.Skeleton.tailFilesToChan)
+    (fs : List C05Prog.Src) {s : C05Prog.St}
+    (hr : C05Prog.Reach (C05Prog.init (fs.map (C05Prog.prog (C05Prog.exitOf skel)))) s) (hc : s.closed = true) :
+    C05Prog.active s = 0 ∧ C05Prog.readCount s = C05Prog.present fs ∧ C05Prog.errors s = C05Prog.missing fs ∧
+    C05Prog.readBytes s = C05Prog.totalBytes fs ∧ C05Prog.sentBytes s = C05Prog.totalBytes fs := by
+  have he : C05Prog.exitOf skel = [.stop, .done] := by
+    rcases hsk with rfl | rfl
+    · exact close_exit_block_from_source.1
+    · exact close_exit_block_from_source.2
+  rw [he] at hr
+  exact C05Prog.closed_status_complete fs hr hc
+
+/-- Boundary, for EVERY set of sources: with the exit block in the order before /repo 7025f4b (`wg.Done()`, then
+    `stopFileReading`) there is a run that closes the channel while every opened source is still listed as active
+    and none is counted as read – the schedule op `closeord` forces on the real code (`lag=6` of 6 there). -/
+theorem close_old_order_lags_all_readers (fs : List C05Prog.Src) :
+    ∃ s, C05Prog.Reach (C05Prog.init (fs.map (C05Prog.prog [.done, .stop]))) s ∧ s.closed = true ∧
+      C05Prog.active s = C05Prog.present fs ∧ C05Prog.readCount s = 0 :=
+  C05Prog.old_order_lags fs
+
+/-- Non-vacuity: two sources (one read as two batches, one that cannot be opened) – a closed state is reachable with
+    the program of the source, and it shows 0 active, 1 read, 1 error, 12 bytes. -/
+example : ∃ s, C05Prog.Reach (C05Prog.init ([some [5, 7], none].map (C05Prog.prog (C05Prog.exitOf Gen.Skeleton.openFilesToChan)))) s ∧
+    s.closed = true ∧ C05Prog.readCount s = 1 ∧ C05Prog.errors s = 1 ∧ C05Prog.readBytes s = 12 := by
+  have h0 : C05Prog.Reach (C05Prog.init ([some [5, 7], none].map (C05Prog.prog (C05Prog.exitOf Gen.Skeleton.openFilesToChan))))
+      ⟨[] ++ ⟨[], [.opened, .send 5, .inc 5, .send 7, .inc 7, .stop, .done] ++ []⟩ :: [⟨[], [.err, .stop, .done]⟩], false⟩ := .refl
+  have h1 := C05Prog.reach_run _ _ _ _ _ _ h0
+  have h2 : C05Prog.Reach _ ⟨[⟨[.opened, .send 5, .inc 5, .send 7, .inc 7, .stop, .done], []⟩] ++
+      ⟨[], [.err, .stop, .done] ++ []⟩ :: [], false⟩ := h1
+  have h3 := C05Prog.reach_run _ _ _ _ _ _ h2
+  have h4 := C05Prog.Reach.step h3 (.close _ rfl (by decide))
+  have hc := close_program_complete _ (.inl rfl) [some [5, 7], none] h4 rfl
+  exact ⟨_, h4, rfl, hc.2.1, hc.2.2.1, hc.2.2.2.1⟩
 
 /-- The aggregation-loop skeleton regenerated from /repo is the one the transition system models. -/
 theorem skeleton_matches_source :
